@@ -1154,8 +1154,22 @@ def judge_use(R: Run, fam: Family, tokenize, nmax: int):
     n = len(fam.items)
     idx = sorted(set(list(range(min(n, nmax // 2))) + R.rng.sample(range(n), min(n, nmax // 2))))
     tname = fam.name
+    import re
+
+    def extreme(o) -> bool:
+        # GEOS / PROJ calls on 1e308-scale or denormal-scale coordinates may never return (and cannot be
+        # interrupted from Python): such members are left to the other oracles
+        for m in re.finditer(r"[fi](-?\d+)(?:/(\d+))?", fam.enc(o)):
+            v = abs(Fraction(int(m.group(1)), int(m.group(2) or 1)))
+            if v > 10 ** 15 or 0 < v < Fraction(1, 10 ** 15):
+                return True
+        return False
+
     for i in idx:
         o = fam.items[i]
+        if extreme(o):
+            R.count(f"use-skipped-extreme:{tname}")
+            continue
         case = {"family": tname, "i": i, "obj": fam.desc[i], "use": True}
         try:
             c0 = pickle.loads(pickle.dumps(o))
